@@ -20,7 +20,14 @@ def showState (s : State) : String :=
   let al := (List.range s.nVal).flatMap fun v => (List.range s.nAcc).flatMap fun o => (List.range s.nAcc).filterMap fun sp =>
     if s.allow v o sp != 0 then some s!"{v}:{o}:{sp}:{s.allow v o sp}" else none
   let gs := (List.range s.nAcc).map (fun d => s!"{s.gain d}")
-  s!"h={s.height} " ++ " ".intercalate vs ++ s!" A({",".intercalate al}) G({",".intercalate gs})"
+  let us := (List.range s.nVal).flatMap fun v => (List.range s.nAcc).filterMap fun d =>
+    let n := (s.ubd.filter (fun u => u.1 == d && u.2.1 == v)).length
+    if n != 0 then some s!"{d}:{v}:{n}" else none
+  let rds := (List.range s.nVal).flatMap fun src => (List.range s.nVal).flatMap fun dst => (List.range s.nAcc).filterMap fun d =>
+    let n := (s.redel.filter (fun r => r.1 == d && r.2.1 == src && r.2.2.1 == dst)).length
+    if n != 0 then some s!"{d}:{src}:{dst}:{n}" else none
+  s!"h={s.height} " ++ " ".intercalate vs ++
+    s!" A({",".intercalate al}) G({",".intercalate gs}) U({",".intercalate us}) Rd({",".intercalate rds})"
 
 def errName (transferLike : Bool) (e : Err) : String :=
   if !transferLike then "err" else
@@ -59,6 +66,13 @@ def parseOp (ws : List String) : Option (Op × Bool) :=
       | _, _ => none
   | [] => none
 
+/-- the values a successful transferShares / transferFromShares returns: token worth of the moved shares at the
+validator's exchange rate (`TokensFromShares(shares).TruncateInt()`) and the reward coins paid to the recipient -/
+def retOf (st s' : State) : Op → String
+  | .transfer _ t v x | .transferFrom _ _ t v x =>
+    s!" ret={(st.vs v).tokensFromShares (x * ONE) / ONE}:{s'.gain t - st.gain t}"
+  | _ => ""
+
 def step (st : State) (line : String) : State × String :=
   match words line with
   | "reset" :: n :: h :: vals =>
@@ -66,12 +80,27 @@ def step (st : State) (line : String) : State × String :=
     | some n, some h, some vs => (init n h vs, "ok")
     | _, _, _ => (st, "bad-op")
   | ["dump"] => (st, "ok | " ++ showState st)
+  | ["rewards", d, v] =>
+    match d.toNat?, v.toNat? with
+    | some d, some v =>
+      if !(st.okAcc d && st.okVal v) then (st, "bad-op") else
+      match (st.vs v).pendingRewards st.height d with
+      | .ok r => (st, "ok | " ++ showState st ++ s!" ret={r}")
+      | .error _ => (st, "err | " ++ showState st)
+    | _, _ => (st, "bad-op")
+  | ["delegation", d, v] =>
+    match d.toNat?, v.toNat? with
+    | some d, some v =>
+      if !(st.okAcc d && st.okVal v) then (st, "bad-op") else
+      let r := (st.vs v).delegationView d
+      (st, "ok | " ++ showState st ++ s!" ret={r.1}:{r.2}")
+    | _, _ => (st, "bad-op")
   | ws =>
     match parseOp ws with
     | none => (st, "bad-op")
     | some (op, tl) =>
       match st.exec FxVerif.Gen.C11.cfg op with
-      | .ok s' => (s', "ok | " ++ showState s')
+      | .ok s' => (s', "ok | " ++ showState s' ++ retOf st s' op)
       | .error e => (st, errName tl e ++ " | " ++ showState st)
 
 def main : IO Unit := runDriver step ({} : State)
